@@ -5,6 +5,9 @@ from . import sanrules
 def run(ctx):
     facts = ctx.facts("dev")
     ctx.decided += [
+        "S4 the squares of a move that into_move constructs itself are functions of the text (and the side to move) only, and only the "
+        "variants that spell out the squares (Uci, Castling, PawnMove, PawnCapture) may be constructed directly - Simple and "
+        "PawnCaptureShort always go through the searcher that filters by the written file/rank hints (S2)",
         "S1 parse soundness: san::Data::into_move returns Ok(mv) only after mv.validate(b) on the same board, or as the result of a searcher "
         "fed exactly once by san_candidates / san_pawn_capture_candidates, which run the generator into a LegalFilter",
         "S2 hints honoured: AmbigSearcher::new builds FULL & file & rank for all 81 hint combinations; push ignores moves whose source is "
@@ -17,3 +20,4 @@ def run(ctx):
     sanrules.producer_rule(ctx, facts, "S1")
     sanrules.searcher_rule(ctx, facts, "S2")
     sanrules.from_move_rule(ctx, facts, "S3")
+    sanrules.text_faithful_rule(ctx, facts, "S4")
